@@ -579,6 +579,9 @@ fn ops(m: &Model, ctx: &mut Ctx) {
         ("a..c | x | 0..9", setop("a..c", "Union", nested(setop("x", "Union", elem("0..9")))), Some(u(&u(&ac, &x), &d09))),
         ("0..9 | a..z ^ c..k", setop("0..9", "Union", nested(setop("a..z", "Intersection", elem("c..k")))), Some(u(&d09, &ck))),
         ("a..z ^ a..c|x ^ c..k", setop("a..z", "Intersection", nested(setop("a..c|x", "Intersection", elem("c..k")))), Some(i(&u(&ac, &x), &ck))),
+        ("a..z ^ c..k EXCEPT x (nested EXCEPT ignored)", setop("a..z", "Intersection", nested(setop("c..k", "Except", elem("x")))), Some(i(&az, &ck))),
+        ("0..9 | a..c EXCEPT x (nested EXCEPT ignored)", setop("0..9", "Union", nested(setop("a..c", "Except", elem("x")))), Some(u(&d09, &ac))),
+        ("0..9 | a..c EXCEPT x | c..k", setop("0..9", "Union", nested(setop("a..c", "Except", nested(setop("x", "Union", elem("c..k")))))), Some(u(&d09, &ac))),
         ("a..c | <not PER-visible> (10.3.21: not PER-visible)", setop("a..c", "Union", elem("invisible")), None),
         ("a..c ^ <not PER-visible> (10.3.21: ignored)", setop("a..c", "Intersection", elem("invisible")), Some(ac.clone())),
     ];
